@@ -263,12 +263,21 @@ def explore(body, prefix=(), bound=None, stats=None, expand_only=False, audit_ev
             c2 = _run(body, p, s2, bound)     # same prefix: the same nodes count as fresh
             stats.reruns += 1
             # same verdicts = same (clause, key) multiset; free-text details may name scratch paths
-            if c2.choices != ctx.choices or sorted(_viol_key(f) for f in c2.failures) != sorted(_viol_key(f) for f in ctx.failures):
-                raise HarnessError("violation did not reproduce identically for choices %r" % (ctx.choices,))
+            if c2.choices != ctx.choices:
+                raise HarnessError("execution did not replay identically for choices %r" % (ctx.choices,))
+            unstable = sorted(_viol_key(f) for f in c2.failures) != sorted(_viol_key(f) for f in ctx.failures)
+            if unstable:
+                # The harness owns every source of nondeterminism, so a different verdict for the very same
+                # execution means the library keeps hidden state between calls.  The first run's failures were
+                # really observed; they are reported only if a re-execution in a FRESH process reproduces them
+                # (mc/cli.py), otherwise the run ends as a harness error, never as a verdict.
+                stats.counters["verdict_changed_on_immediate_rerun"] = stats.counters.get("verdict_changed_on_immediate_rerun", 0) + 1
             for f in ctx.failures:
                 f = dict(f)
                 f["choices"] = list(ctx.choices)
                 f["labels"] = [str(l) for l in ctx.labels]
+                if unstable:
+                    f["needs_fresh_process_confirmation"] = True
                 stats.add_failure(f)
         elif audit_every and stats.executions % audit_every == 0:
             s2 = Stats()
